@@ -36,14 +36,14 @@ Notation "P ~> Q" := (leadsto r P Q) (at level 70).
 Notation ensures := (lt_ensures guard eff r (Inv cap) Inv_run).
 Notation ensures_s := (lt_ensures_s guard eff r (Inv cap) Inv_run).
 Let Fwl : sfair g_wl r := proj1 (proj2 (proj2 (proj2 F))).
-Let Fbody : sfair g_body r := proj2 (proj2 (proj2 (proj2 (proj2 (proj2 (proj2 F)))))).
+Let Fbody : sfair g_body r := proj1 (proj2 (proj2 (proj2 (proj2 (proj2 (proj2 (proj2 F))))))).
 Let Wwl := sfair_fair guard eff r g_wl Fwl.
 Let Wbody := sfair_fair guard eff r g_body Fbody.
 Notation rl_release := (CliL2.rl_release cap cap_pos r F R0 NS).
 
 Lemma llock_unless : forall n s a, Inv cap s ->
-  (done s = true /\ exists h, wl s = LLockB h) /\ wm s = n -> guard a s ->
-  ((done (eff a s) = true /\ exists h, wl (eff a s) = LLockB h) /\ wm (eff a s) = n) \/ iterQ n (eff a s).
+  (True /\ exists h, wl s = LLockB h) /\ wm s = n -> guard a s ->
+  ((True /\ exists h, wl (eff a s) = LLockB h) /\ wm (eff a s) = n) \/ iterQ n (eff a s).
 Proof. intros n; wunf; cens1_w1. Qed.
 End P.
 End CliL3c.
